@@ -48,6 +48,18 @@ def pan_device(hostname='router', display='FW-managed-by-Netspoc'):
             '<vsys>%s</vsys></entry>' % (hostname, pan_vsys([pan_rule('r1', 'NET_10.1.2.0_24'), pan_rule('r2', 'NET_10.1.3.0_24', 'udp 123')], display)))
 
 
+def pan_device2(displays, hostname='router'):
+    """one vsys per display-name"""
+    vs = ''.join(pan_vsys([pan_rule('r1', 'NET_10.1.2.0_24'), pan_rule('r2', 'NET_10.1.3.0_24', 'udp 123')], d, 'vsys%d' % (i + 1)) for i, d in enumerate(displays))
+    return ('<entry name="localhost.localdomain"><deviceconfig><system><hostname>%s</hostname></system></deviceconfig>'
+            '<vsys>%s</vsys></entry>' % (hostname, vs))
+
+
+def pan_target2(n):
+    vs = ''.join(pan_vsys([pan_rule('r1', 'NET_10.1.3.0_24'), pan_rule('r3', 'NET_10.1.2.0_24', 'udp 123')], None, 'vsys%d' % (i + 1)) for i in range(n))
+    return '<config><devices><entry name="localhost.localdomain"><vsys>%s</vsys></entry></devices></config>\n' % vs
+
+
 PAN_TGT = ('<config><devices><entry name="localhost.localdomain"><vsys>%s</vsys></entry></devices></config>\n'
            % pan_vsys([pan_rule('r1', 'NET_10.1.3.0_24'), pan_rule('r3', 'NET_10.1.2.0_24', 'udp 123')], None))
 
